@@ -790,6 +790,33 @@ pub mod locks {
             let g = self.0.try_write()?;
             Some(RwLockWriteGuard { g, _t: Token::got_now(self.id('w')) })
         }
+        /// further parts of parking_lot's surface, so that a change to the crate that uses them still builds under the cfg
+        pub fn read_recursive(&self) -> RwLockReadGuard<'_, T> {
+            let t = Token::want(self.id('r'));
+            let g = self.0.read_recursive();
+            RwLockReadGuard { g, _t: t.got() }
+        }
+        pub fn try_read_recursive(&self) -> Option<RwLockReadGuard<'_, T>> {
+            let g = self.0.try_read_recursive()?;
+            Some(RwLockReadGuard { g, _t: Token::got_now(self.id('r')) })
+        }
+        pub fn try_read_for(&self, d: std::time::Duration) -> Option<RwLockReadGuard<'_, T>> {
+            let g = self.0.try_read_for(d)?;
+            Some(RwLockReadGuard { g, _t: Token::got_now(self.id('r')) })
+        }
+        pub fn try_write_for(&self, d: std::time::Duration) -> Option<RwLockWriteGuard<'_, T>> {
+            let g = self.0.try_write_for(d)?;
+            Some(RwLockWriteGuard { g, _t: Token::got_now(self.id('w')) })
+        }
+        pub fn is_locked(&self) -> bool {
+            self.0.is_locked()
+        }
+        pub fn get_mut(&mut self) -> &mut T {
+            self.0.get_mut()
+        }
+        pub fn into_inner(self) -> T {
+            self.0.into_inner()
+        }
         /// for observers: not recorded
         pub fn raw(&self) -> &parking_lot::RwLock<T> {
             &self.0
@@ -832,6 +859,19 @@ pub mod locks {
         pub fn try_lock(&self) -> Option<MutexGuard<'_, T>> {
             let g = self.0.try_lock()?;
             Some(MutexGuard { g, _t: Token::got_now((class_of::<T>(), self as *const _ as usize, 'm')) })
+        }
+        pub fn try_lock_for(&self, d: std::time::Duration) -> Option<MutexGuard<'_, T>> {
+            let g = self.0.try_lock_for(d)?;
+            Some(MutexGuard { g, _t: Token::got_now((class_of::<T>(), self as *const _ as usize, 'm')) })
+        }
+        pub fn is_locked(&self) -> bool {
+            self.0.is_locked()
+        }
+        pub fn get_mut(&mut self) -> &mut T {
+            self.0.get_mut()
+        }
+        pub fn into_inner(self) -> T {
+            self.0.into_inner()
         }
         /// for observers: not recorded
         pub fn raw(&self) -> &parking_lot::Mutex<T> {
